@@ -50,8 +50,9 @@ type Profile struct {
 	OnDiskPct     int // percent of runs on disk
 	ReadAll       bool
 	TwoBucketsPct int
-	ReopenPct     int // percent chance per run of containing Reopen ops (on-disk only)
-	ExpPct        int // percent of writes carrying an expiry
+	ReopenPct     int  // percent chance per run of containing Reopen ops (on-disk only)
+	ExpPct        int  // percent of writes carrying an expiry
+	ShortExp      bool // expiries of 1-40 simulated seconds (C14) instead of far-away ones
 }
 
 var profiles = map[string]Profile{
@@ -72,6 +73,10 @@ var profiles = map[string]Profile{
 	"C08": {Name: "C08", W: baseWeights(4).with("Purge", 1), MinOps: 6, MaxOps: 30, MaxKeys: 3, MaxColl: 2, SmallDoc: 10, OnDiskPct: 10, ExpPct: 30},
 	"C09": {Name: "C09", W: baseWeights(3).with("Backfill", 14, "Purge", 1), MinOps: 6, MaxOps: 26, MaxKeys: 4, MaxColl: 2, OnDiskPct: 15, ExpPct: 30},
 	"C11": {Name: "C11", W: baseWeights(4).with("Purge", 2, "Backfill", 1, "Touch", 10, "GetAndTouchRaw", 6), MinOps: 8, MaxOps: 30, MaxKeys: 2, MaxColl: 3, ReadAll: true, TwoBucketsPct: 50, OnDiskPct: 15, ExpPct: 40},
+	"C14": {Name: "C14", W: weights{"Set": 6, "SetRaw": 3, "Add": 4, "AddRaw": 2, "WriteCas": 5, "Delete": 3, "Remove": 1, "Update": 3, "Incr": 3, "Touch": 8, "GetAndTouchRaw": 4,
+		"UpdateXattrs": 4, "WriteWithXattrs": 5, "WriteResurrectionWithXattrs": 2, "WriteTombstoneWithXattrs": 2, "WriteUpdateWithXattrs": 3, "SetXattrs": 1, "SetWithMeta": 2,
+		"DeleteWithXattrs": 1, "WriteSubDoc": 1, "Advance": 14, "Reopen": 3, "Purge": 1}, MinOps: 5, MaxOps: 26, MaxKeys: 3, MaxColl: 2, OnDiskPct: 30, ReopenPct: 100, ExpPct: 75, ShortExp: true},
+	"C04": {Name: "C04", W: baseWeights(4).with("SetWithMeta", 1, "DeleteWithMeta", 1, "Clock", 8, "Restart", 5, "Reopen", 2, "Advance", 2, "Purge", 1), MinOps: 6, MaxOps: 30, MaxKeys: 2, MaxColl: 2, OnDiskPct: 60, ReopenPct: 100, ExpPct: 10},
 	"C17": {Name: "C17", W: baseWeights(4).with("Purge", 3, "Backfill", 4, "Touch", 8), MinOps: 6, MaxOps: 30, MaxKeys: 2, MaxColl: 1, OnDiskPct: 10, ExpPct: 20},
 	"C18": {Name: "C18", W: weights{"Set": 6, "SetRaw": 1, "Delete": 2, "WriteSubDoc": 14, "SubdocInsert": 10, "WriteCas": 2, "SetXattrs": 2, "Add": 1, "Purge": 1, "Touch": 1}, MinOps: 5, MaxOps: 24, MaxKeys: 2, MaxColl: 1, SmallDoc: 10, OnDiskPct: 10, ExpPct: 15},
 }
@@ -180,7 +185,20 @@ func (g *gen) casMode(wCur, wZero, wStale, wBogus int) string {
 	}
 }
 
+func (g *gen) expVal() uint32 {
+	if g.p.ShortExp {
+		return uint32(1 + g.r.Intn(40))
+	}
+	return uint32(5000 + g.r.Intn(100000))
+}
+
 func (g *gen) exp(op *Op) {
+	if g.p.ShortExp {
+		if g.r.Chance(g.p.ExpPct) {
+			op.ExpKind, op.ExpVal = 1+g.r.Intn(2), g.expVal()
+		}
+		return
+	}
 	if g.r.Chance(g.p.ExpPct) {
 		if g.r.Bool() {
 			op.ExpKind, op.ExpVal = 1, uint32(5000+g.r.Intn(100000))
@@ -221,7 +239,7 @@ func (g *gen) op(kind string) Op {
 	op := Op{Kind: kind}
 	op.Key = g.keys[g.r.Intn(len(g.keys))]
 	op.Coll = g.r.Intn(g.ncoll)
-	if g.twoB && g.r.Chance(25) && kind != "Backfill" && kind != "Purge" && kind != "Reopen" {
+	if g.twoB && g.r.Chance(25) && kind != "Backfill" && kind != "Purge" && kind != "Reopen" && kind != "Restart" && kind != "Advance" && kind != "Clock" {
 		op.Handle, op.Coll = 9, 0
 	}
 	small := g.p.SmallDoc > 0
@@ -290,7 +308,7 @@ func (g *gen) op(kind string) Op {
 		default:
 			a := CbAct{Act: "set", Body: strp(g.jsonBody())}
 			if g.r.Chance(20) {
-				e := uint32(5000 + g.r.Intn(1000))
+				e := g.expVal()
 				a.Exp = &e
 			}
 			op.Cb = append(op.Cb, a)
@@ -300,7 +318,7 @@ func (g *gen) op(kind string) Op {
 		op.Amt, op.Def = uint64(g.r.Intn(5)), uint64(g.r.Intn(50))
 		g.exp(&op)
 	case "Touch", "GetAndTouchRaw":
-		op.ExpKind, op.ExpVal = 1+g.r.Intn(2), uint32(5000+g.r.Intn(100000))
+		op.ExpKind, op.ExpVal = 1+g.r.Intn(2), g.expVal()
 		if g.r.Chance(15) {
 			op.ExpKind, op.ExpVal = 0, 0
 		}
@@ -399,7 +417,7 @@ func (g *gen) op(kind string) Op {
 		if a.Act != "err" {
 			a.Macros = g.macros(&op, a.Xattrs)
 			if g.r.Chance(20) {
-				e := uint32(5000 + g.r.Intn(1000))
+				e := g.expVal()
 				a.Exp = &e
 			}
 		}
@@ -415,7 +433,7 @@ func (g *gen) op(kind string) Op {
 		op.CasMode = g.casMode(6, 3, 2, 1)
 		op.Amt = uint64(g.r.Intn(1000))
 		if g.r.Chance(g.p.ExpPct) {
-			op.ExpKind, op.ExpVal = 2, uint32(5000+g.r.Intn(100000))
+			op.ExpKind, op.ExpVal = 2, g.expVal()
 		}
 	case "DeleteWithMeta":
 		op.Xattrs = g.xattrSet(0, 2)
@@ -447,9 +465,19 @@ func (g *gen) op(kind string) Op {
 		if g.r.Chance(15) {
 			op.WOpt = 1 // keys only
 		}
-	case "Purge", "Reopen":
+	case "Purge", "Reopen", "Restart":
 		op.Key = ""
 		op.Coll = 0
+		op.Dur = g.r.Intn(100)
+	case "Advance":
+		op.Key = ""
+		op.Coll = 0
+		op.Dur = []int{1, 2, 3, 5, 8, 13, 30, 60}[g.r.Intn(8)]
+	case "Clock":
+		op.Key = ""
+		op.Coll = 0
+		op.CasMode = []string{"stall", "back", "jump", "normal", "back"}[g.r.Intn(5)]
+		op.Dur = g.r.Intn(5000)
 	}
 	return op
 }
@@ -494,7 +522,10 @@ func GenE1(prop string, seed uint64) *Program {
 		} else if r.Chance(20) {
 			wt *= 4
 		}
-		if k == "Reopen" && (!prog.OnDisk || !r.Chance(p.ReopenPct)) {
+		if k == "Restart" && !prog.OnDisk {
+			wt = 0
+		}
+		if k == "Reopen" && !r.Chance(p.ReopenPct) {
 			wt = 0
 		}
 		w[k] = wt
